@@ -24,6 +24,8 @@ fn main() {
         "C09" => props::c09::run(),
         "C10" => props::c10::run(),
         "C11" => props::c11::run_check(),
+        "C12" => props::c12::run(),
+        "C13" => props::c13::run(),
         "C14" => props::c14::run(),
         "C16" => props::c16::run(),
         "C18" => props::c18::run(),
@@ -53,6 +55,8 @@ fn replay(path: &str) -> i32 {
         "C09" => props::c09::replay(&v["case"]),
         "C10" => props::c10::replay(&v["case"]),
         "C11" => props::c11::replay(&v["case"]),
+        "C12" => props::c12::replay(&v["case"]),
+        "C13" => props::c13::replay(&v["case"]),
         "C14" => props::c14::replay(&v["case"]),
         "C16" => props::c16::replay(&v["case"]),
         "C18" => props::c18::replay(&v["case"]),
